@@ -30,6 +30,7 @@ RULE = (
     ' Round 10: long stored values in the per-type sweep.'
     ' Round 11: environment sweep (see C03); zones with daylight saving rules asked in their summer and winter (DST_POINTS).'
     ' Round 12: hidden-switch sweep (every internal type, then the whole tour in one history); pass under `python -O`; eager task factory.'
+    ' Round 14: sleeper sweep (every non-wake message from a sleeper with a command parked); commands released by a message that is no wake are judged here, not left to C07.'
 )
 ASSUMPTIONS = [
     "time zones are fixed-offset POSIX TZ strings applied with time.tzset(); the handler module's `time` attribute is shimmed when present",
